@@ -16,7 +16,7 @@ partial def dTy : Ty → String
   | .bool => "b" | .int => "i" | .float => "f" | .string => "s" | .object => "o"
   | .optional t => "?" ++ dTy t | .array t => "A" ++ dTy t | .map t => "M" ++ dTy t
   | .custom n => "C" ++ hexN n ++ ";"
-  | .enum vs => "E(" ++ ",".intercalate (vs.map hexN) ++ ")"
+  | .enum vs => "E(" ++ ",".intercalate (vs.map fun (v, cs) => hexN v ++ (if cs.isEmpty then "" else dcs cs)) ++ ")"
   | .struct fs => "S(" ++ dFields fs ++ ")"
 partial def dFields (fs : List Field) : String :=
   ",".intercalate (fs.map fun (n, t, cs) => "F" ++ hexN n ++ ":" ++ dTy t ++ dcs cs)
@@ -53,11 +53,17 @@ partial def pTy (cs : List Char) : Option (Ty × List Char) :=
   | 'M' :: r => (pTy r).map fun (t, r') => (.map t, r')
   | 'C' :: r => let (n, r') := takeHex r; (match r' with | ';' :: r'' => some (.custom n, r'') | _ => none)
   | 'E' :: '(' :: r =>
-    let rec go (r : List Char) (acc : List In) : Option (List In × List Char) :=
+    let rec go (r : List Char) (acc : List (In × List In)) : Option (List (In × List In) × List Char) :=
       match r with
       | ')' :: r' => some (acc.reverse, r')
       | ',' :: r' => go r' acc
-      | _ => let (b, r') := takeHex r; if r'.length < r.length then go r' (b :: acc) else none
+      | _ =>
+        let (b, r') := takeHex r
+        if r'.length < r.length then
+          match r' with
+          | '{' :: _ => (match pCs r' with | some (cs, r'') => go r'' ((b, cs) :: acc) | none => none)
+          | _ => go r' ((b, []) :: acc)
+        else none
     (go r []).map fun (vs, r') => (.enum vs, r')
   | 'S' :: '(' :: r => (pFields r).map fun (fs, r') => (.struct fs, r')
   | _ => none
